@@ -17,6 +17,8 @@ for h,(getter,idf,esm,cool) in handlers.items():
     out.append(f"//@   let vf0 = k.{getter}(ctx, msg.{idf}).1")
     out.append("//@   requires #app-keyed: k.asset.GetApp(ctx, msg.AppId).1 ==> k.asset.GetApp(ctx, msg.AppId).0.Id == msg.AppId")
     out.append("//@   requires #pairsvault-keyed: k.asset.GetPairsVault(ctx, msg.ExtendedPairVaultId).1 ==> k.asset.GetPairsVault(ctx, msg.ExtendedPairVaultId).0.Id == msg.ExtendedPairVaultId")
+    if h == "MsgDepositAndDraw":
+        out.append("//@   requires #nonneg-book: forall a, b :: K(\"collector\").GetNetFeeCollectedData(ctx, a, b).1 ==> K(\"collector\").GetNetFeeCollectedData(ctx, a, b).0.NetFeesCollected >= 0")
     out.append("//@   ensures [C12] #c12-owner: ok ==> vf0 && msg.From == v0.Owner")
     out.append("//@   ensures [C12] #c12-own-app: ok ==> v0.AppId == msg.AppId && v0.ExtendedPairVaultID == msg.ExtendedPairVaultId")
     out.append("//@   fails_if [C14] #c14-breaker: k.esm.GetKillSwitchData(ctx, msg.AppId).0.BreakerEnable")
